@@ -20,23 +20,64 @@ type SpecFn struct {
 	PTypes []string
 	Ret    string
 	Body   ast.Expr // nil = uninterpreted
+	Pkg    *types.Package
+}
+
+type Clause struct {
+	Name string // optional label; "" = positional
+	Expr ast.Expr
+	Src  string
 }
 
 type FuncContract struct {
-	Selector string
-	Requires []ast.Expr
-	Ensures  []ast.Expr
-	LoopInv  map[int][]ast.Expr
-	StreamInv map[int][]ast.Expr
-	StreamAssume map[int][]ast.Expr
-	Src      map[ast.Expr]string
+	Selector     string
+	Pkg          *types.Package
+	File         string
+	Requires     []Clause
+	Assumes      []Clause // input assumptions that are not caller obligations (listed in evidence)
+	Ensures      []Clause
+	LoopInv      map[int][]Clause
+	LoopDec      map[int]ast.Expr
+	StreamInv    map[int][]Clause
+	StreamAssume map[int][]Clause
+	Flags        map[string]bool // pure, inline, trusted
+	Lets         []Clause        // ghost definitions evaluated at entry: let name: expr
+}
+
+type FindingClass struct {
+	Name string
+	Expr ast.Expr
+	Src  string
+	Pkg  *types.Package
+}
+
+type Lemma struct {
+	Name     string
+	Pkg      *types.Package
+	Params   []string
+	PTypes   []string
+	Requires []Clause
+	Ensures  []Clause
+	Uses     []Clause
+	Cases    []Clause // case split: one obligation per case (name: condition)
 }
 
 type Contracts struct {
-	Funcs map[string]*FuncContract
-	Specs map[string]*SpecFn
+	Funcs   map[string]*FuncContract // key: pkgpath|selector
+	Specs   map[string]*SpecFn
+	Classes map[string]*FindingClass
+	Lemmas  map[string]*Lemma
+	Order   []string // keys of Funcs in file order
+	LemmaOrder []string
 }
 
+func newContracts() *Contracts {
+	return &Contracts{Funcs: map[string]*FuncContract{}, Specs: map[string]*SpecFn{}, Classes: map[string]*FindingClass{}, Lemmas: map[string]*Lemma{}}
+}
+
+func (cs *Contracts) forFunc(pkg *types.Package, sel string) *FuncContract {
+	return cs.Funcs[pkg.Path()+"|"+sel]
+}
 
 // rewriteImplies turns "a ==> b" (lowest precedence, right associative) into implies(a, b),
 // inside every parenthesised argument as well.
@@ -133,9 +174,49 @@ func parseSpecExpr(src string) ast.Expr {
 	return e
 }
 
-func parseContracts(text string) *Contracts {
-	cs := &Contracts{Funcs: map[string]*FuncContract{}, Specs: map[string]*SpecFn{}}
+// splitLabel separates an optional "name:" label from a clause body.
+func splitLabel(s string) (string, string) {
+	s = strings.TrimSpace(s)
+	i := strings.Index(s, ":")
+	if i <= 0 {
+		return "", s
+	}
+	lab := s[:i]
+	for _, r := range lab {
+		if !(r >= 'a' && r <= 'z' || r >= 'A' && r <= 'Z' || r >= '0' && r <= '9' || r == '_' || r == '.' || r == '-') {
+			return "", s
+		}
+	}
+	return lab, strings.TrimSpace(s[i+1:])
+}
+
+func mkClause(s string) Clause {
+	lab, body := splitLabel(s)
+	return Clause{Name: lab, Expr: parseSpecExpr(body), Src: body}
+}
+
+func parseParams(s string) (names, tys []string) {
+	for _, p := range splitTop(s) {
+		p = strings.TrimSpace(p)
+		if p == "" {
+			continue
+		}
+		i := strings.IndexAny(p, " \t")
+		names = append(names, p[:i])
+		tys = append(tys, strings.TrimSpace(p[i+1:]))
+	}
+	return
+}
+
+// parseFile reads the //@ clauses of one contract file that belongs to package pkg.
+func (cs *Contracts) parseFile(text string, pkg *types.Package, file string) (err error) {
+	defer func() {
+		if r := recover(); r != nil {
+			err = fmt.Errorf("%s: %v", file, r)
+		}
+	}()
 	var cur *FuncContract
+	var curLemma *Lemma
 	var pending string
 	var lines []string
 	for _, l := range strings.Split(text, "\n") {
@@ -144,6 +225,9 @@ func parseContracts(text string) *Contracts {
 			continue
 		}
 		l = strings.TrimSpace(strings.TrimPrefix(l, "//@"))
+		if l == "" {
+			continue
+		}
 		if strings.HasPrefix(l, "...") { // continuation
 			pending += " " + strings.TrimSpace(strings.TrimPrefix(l, "..."))
 			lines[len(lines)-1] = pending
@@ -155,37 +239,74 @@ func parseContracts(text string) *Contracts {
 	for _, l := range lines {
 		switch {
 		case strings.HasPrefix(l, "func "):
-			cur = &FuncContract{Selector: strings.TrimSpace(l[5:]), LoopInv: map[int][]ast.Expr{}, StreamInv: map[int][]ast.Expr{}, StreamAssume: map[int][]ast.Expr{}, Src: map[ast.Expr]string{}}
-			cs.Funcs[cur.Selector] = cur
+			sel := strings.TrimSpace(l[5:])
+			cur = &FuncContract{Selector: sel, Pkg: pkg, File: file, LoopInv: map[int][]Clause{}, LoopDec: map[int]ast.Expr{}, StreamInv: map[int][]Clause{}, StreamAssume: map[int][]Clause{}, Flags: map[string]bool{}}
+			curLemma = nil
+			key := pkg.Path() + "|" + sel
+			if _, dup := cs.Funcs[key]; dup {
+				panic("duplicate contract for " + sel)
+			}
+			cs.Funcs[key] = cur
+			cs.Order = append(cs.Order, key)
+		case strings.HasPrefix(l, "lemma "):
+			rest := l[6:]
+			open := strings.Index(rest, "(")
+			cl := strings.LastIndex(rest, ")")
+			curLemma = &Lemma{Name: strings.TrimSpace(rest[:open]), Pkg: pkg}
+			curLemma.Params, curLemma.PTypes = parseParams(rest[open+1 : cl])
+			cur = nil
+			cs.Lemmas[curLemma.Name] = curLemma
+			cs.LemmaOrder = append(cs.LemmaOrder, curLemma.Name)
 		case strings.HasPrefix(l, "requires "):
-			ex := parseSpecExpr(l[9:])
-			cur.Requires = append(cur.Requires, ex)
-			cur.Src[ex] = l[9:]
+			if curLemma != nil {
+				curLemma.Requires = append(curLemma.Requires, mkClause(l[9:]))
+			} else {
+				cur.Requires = append(cur.Requires, mkClause(l[9:]))
+			}
+		case strings.HasPrefix(l, "assumes "):
+			cur.Assumes = append(cur.Assumes, mkClause(l[8:]))
+		case strings.HasPrefix(l, "let "):
+			cur.Lets = append(cur.Lets, mkClause(l[4:]))
 		case strings.HasPrefix(l, "ensures "):
-			ex := parseSpecExpr(l[8:])
-			cur.Ensures = append(cur.Ensures, ex)
-			cur.Src[ex] = l[8:]
+			if curLemma != nil {
+				curLemma.Ensures = append(curLemma.Ensures, mkClause(l[8:]))
+			} else {
+				cur.Ensures = append(cur.Ensures, mkClause(l[8:]))
+			}
+		case strings.HasPrefix(l, "use "):
+			curLemma.Uses = append(curLemma.Uses, mkClause(l[4:]))
+		case strings.HasPrefix(l, "case "):
+			curLemma.Cases = append(curLemma.Cases, mkClause(l[5:]))
+		case l == "pure" || l == "inline" || l == "trusted":
+			cur.Flags[l] = true
 		case strings.HasPrefix(l, "loop "):
 			f := strings.Fields(l)
 			n, _ := strconv.Atoi(f[1])
-			rest := strings.TrimSpace(strings.SplitN(l, "invariant", 2)[1])
-			ex := parseSpecExpr(rest)
-			cur.LoopInv[n] = append(cur.LoopInv[n], ex)
-			cur.Src[ex] = rest
+			switch f[2] {
+			case "invariant":
+				cur.LoopInv[n] = append(cur.LoopInv[n], mkClause(strings.SplitN(l, "invariant", 2)[1]))
+			case "decreases":
+				cur.LoopDec[n] = parseSpecExpr(strings.SplitN(l, "decreases", 2)[1])
+			default:
+				panic("unknown loop clause: " + l)
+			}
 		case strings.HasPrefix(l, "stream "):
 			f := strings.Fields(l)
 			n, _ := strconv.Atoi(f[1])
-			if strings.Contains(l, " assumes ") {
-				rest := strings.TrimSpace(strings.SplitN(l, "assumes", 2)[1])
-				ex := parseSpecExpr(rest)
-				cur.StreamAssume[n] = append(cur.StreamAssume[n], ex)
-				cur.Src[ex] = rest
-				continue
+			switch f[2] {
+			case "assumes":
+				cur.StreamAssume[n] = append(cur.StreamAssume[n], mkClause(strings.SplitN(l, "assumes", 2)[1]))
+			case "invariant":
+				cur.StreamInv[n] = append(cur.StreamInv[n], mkClause(strings.SplitN(l, "invariant", 2)[1]))
+			default:
+				panic("unknown stream clause: " + l)
 			}
-			rest := strings.TrimSpace(strings.SplitN(l, "invariant", 2)[1])
-			ex := parseSpecExpr(rest)
-			cur.StreamInv[n] = append(cur.StreamInv[n], ex)
-			cur.Src[ex] = rest
+		case strings.HasPrefix(l, "finding-class "):
+			lab, body := splitLabel(l[14:])
+			if lab == "" {
+				panic("finding-class needs a name: " + l)
+			}
+			cs.Classes[lab] = &FindingClass{Name: lab, Expr: parseSpecExpr(body), Src: body, Pkg: pkg}
 		case strings.HasPrefix(l, "spec "):
 			// spec name(p T, q U) R = body
 			rest := l[5:]
@@ -196,22 +317,17 @@ func parseContracts(text string) *Contracts {
 			}
 			open := strings.Index(rest, "(")
 			cl := strings.LastIndex(rest, ")")
-			sf := &SpecFn{Name: strings.TrimSpace(rest[:open]), Ret: strings.TrimSpace(rest[cl+1:]), Body: body}
-			for _, p := range strings.Split(rest[open+1:cl], ",") {
-				p = strings.TrimSpace(p)
-				if p == "" {
-					continue
-				}
-				f := strings.Fields(p)
-				sf.Params = append(sf.Params, f[0])
-				sf.PTypes = append(sf.PTypes, f[1])
+			sf := &SpecFn{Name: strings.TrimSpace(rest[:open]), Ret: strings.TrimSpace(rest[cl+1:]), Body: body, Pkg: pkg}
+			sf.Params, sf.PTypes = parseParams(rest[open+1 : cl])
+			if old, dup := cs.Specs[sf.Name]; dup && old.Pkg != pkg {
+				panic("spec function " + sf.Name + " defined in two packages")
 			}
 			cs.Specs[sf.Name] = sf
 		default:
 			panic("unknown clause: " + l)
 		}
 	}
-	return cs
+	return nil
 }
 
 // ---------- spec evaluation ----------
@@ -475,7 +591,7 @@ func (env *SpecEnv) call(n *ast.CallExpr) SV {
 		case *SliceV:
 			return intSV(v.Len)
 		case *Scalar:
-			return intSV(app(SInt, "str.len", v.T))
+			return intSV(env.e.strLen(v.T))
 		}
 	case "ite":
 		c := scal(env.eval(n.Args[0]))
@@ -530,7 +646,15 @@ func (env *SpecEnv) specRetType(sf *SpecFn) types.Type {
 	if t, ok := namedTypes[sf.Ret]; ok {
 		return t
 	}
-	panic("spec: unknown return type " + sf.Ret)
+	p := sf.Pkg
+	if p == nil {
+		p = env.pkg
+	}
+	t, err := resolveTypeString(p, sf.Ret)
+	if err != nil {
+		panic("spec: return type of " + sf.Name + ": " + err.Error())
+	}
+	return t
 }
 
 // applyUF applies an uninterpreted function with struct-shaped result: one UF per result leaf.
@@ -557,4 +681,68 @@ func (e *Exec) applyUF(name string, args []SV, ret types.Type) SV {
 		}
 		return t
 	})
+}
+
+// resolveTypeExpr resolves a type written in a contract (T, *T, []T, pkg.T, basic types) in the scope of pkg and
+// of the packages it imports.
+func resolveTypeExpr(pkg *types.Package, x ast.Expr) (types.Type, error) {
+	switch n := x.(type) {
+	case *ast.ParenExpr:
+		return resolveTypeExpr(pkg, n.X)
+	case *ast.StarExpr:
+		t, err := resolveTypeExpr(pkg, n.X)
+		if err != nil {
+			return nil, err
+		}
+		return types.NewPointer(t), nil
+	case *ast.ArrayType:
+		t, err := resolveTypeExpr(pkg, n.Elt)
+		if err != nil {
+			return nil, err
+		}
+		return types.NewSlice(t), nil
+	case *ast.Ident:
+		if obj := types.Universe.Lookup(n.Name); obj != nil {
+			if tn, ok := obj.(*types.TypeName); ok {
+				return tn.Type(), nil
+			}
+		}
+		if pkg != nil {
+			if tn, ok := pkg.Scope().Lookup(n.Name).(*types.TypeName); ok {
+				return tn.Type(), nil
+			}
+			var found types.Type
+			for _, imp := range pkg.Imports() {
+				if tn, ok := imp.Scope().Lookup(n.Name).(*types.TypeName); ok && strings.HasPrefix(imp.Path(), modPath) {
+					found = tn.Type()
+				}
+			}
+			if found != nil {
+				return found, nil
+			}
+		}
+		return nil, fmt.Errorf("unknown type %s", n.Name)
+	case *ast.SelectorExpr:
+		id, ok := n.X.(*ast.Ident)
+		if !ok || pkg == nil {
+			return nil, fmt.Errorf("bad qualified type")
+		}
+		for _, imp := range pkg.Imports() {
+			if imp.Name() == id.Name {
+				if tn, ok := imp.Scope().Lookup(n.Sel.Name).(*types.TypeName); ok {
+					return tn.Type(), nil
+				}
+			}
+		}
+		return nil, fmt.Errorf("unknown type %s.%s", id.Name, n.Sel.Name)
+	}
+	return nil, fmt.Errorf("unsupported type expression %T", x)
+}
+
+func resolveTypeString(pkg *types.Package, s string) (types.Type, error) {
+	x, err := parser.ParseExpr(s)
+	if err != nil {
+		return nil, err
+	}
+	return resolveTypeExpr(pkg, x)
 }
